@@ -63,7 +63,38 @@ func (g *mixGen) ethTx() pb.Transaction {
 	// init code: stores a word at slot 0xff (a binary storage key), then returns the 10-byte runtime
 	// (PUSH1 0x2a; MSTORE; RETURN 32 bytes)
 	deploy := []byte{0x60, 0x2a, 0x60, 0xff, 0x55, 0x60, 0x0a, 0x60, 0x11, 0x60, 0x00, 0x39, 0x60, 0x0a, 0x60, 0x00, 0xf3, 0x60, 0x2a, 0x60, 0x00, 0x52, 0x60, 0x20, 0x60, 0x00, 0xf3}
-	switch x := r.Intn(100); {
+	// a second contract: first calldata byte 1 = SSTORE(slot = byte 1, value = byte 2) - a zero value clears the slot
+	// and earns a gas refund -, 2 = SELFDESTRUCT to the caller, anything else returns a word
+	slotsRuntime := []byte{0x60, 0x00, 0x35, 0x60, 0x00, 0x1a, 0x80, 0x60, 0x01, 0x14, 0x60, 0x1e, 0x57, 0x80, 0x60, 0x02, 0x14, 0x60, 0x2d, 0x57,
+		0x60, 0x2a, 0x60, 0x00, 0x52, 0x60, 0x20, 0x60, 0x00, 0xf3,
+		0x5b, 0x60, 0x00, 0x35, 0x60, 0x02, 0x1a, 0x60, 0x00, 0x35, 0x60, 0x01, 0x1a, 0x55, 0x00,
+		0x5b, 0x33, 0xff}
+	deploySlots := append([]byte{0x60, 0x30, 0x60, 0x0c, 0x60, 0x00, 0x39, 0x60, 0x30, 0x60, 0x00, 0xf3}, slotsRuntime...)
+	switch x := r.Intn(112); {
+	case x >= 100 && x < 104:
+		g.note("eth-deploy-slots-contract")
+		return w.Eth(sender, 0, 200000, price, big.NewInt(0), nil, deploySlots)
+	case x >= 104:
+		// storage writes, clears (gas refund) and self-destruction on the contracts deployed so far; later calls and
+		// transfers reach the destroyed address again
+		to := other
+		if len(g.ethContracts) > 0 {
+			to = g.ethContracts[r.Intn(len(g.ethContracts))]
+		}
+		switch y := r.Intn(10); {
+		case y < 4:
+			g.note("eth-call-sstore-set")
+			return w.Eth(sender, 0, 80000, price, big.NewInt(0), to, []byte{1, byte(r.Intn(3)), byte(1 + r.Intn(200))})
+		case y < 8:
+			g.note("eth-call-sstore-clear")
+			return w.Eth(sender, 0, 80000, price, big.NewInt(0), to, []byte{1, byte(r.Intn(3)), 0})
+		case y < 9:
+			g.note("eth-call-selfdestruct")
+			return w.Eth(sender, 0, 80000, price, big.NewInt(0), to, []byte{2})
+		default:
+			g.note("eth-transfer-to-contract")
+			return w.Eth(sender, 0, 60000, price, big.NewInt(int64(1+r.Intn(1000))), to, nil)
+		}
 	case x < 25:
 		g.note("eth-transfer")
 		return w.Eth(sender, 0, 21000, price, big.NewInt(int64(1+r.Intn(1000))), other, nil)
@@ -137,7 +168,7 @@ func (g *mixGen) absorb(txs []pb.Transaction, res *harness.BlockResult) {
 		if rc.Status != pb.Receipt_SUCCESS || i >= len(txs) {
 			continue
 		}
-		if rc.ContractAddress != nil && len(g.ethContracts) < 4 {
+		if rc.ContractAddress != nil && len(g.ethContracts) < 6 {
 			if _, isEth := txs[i].(*ethkittypes.EthTransaction); isEth {
 				g.ethContracts = append(g.ethContracts, rc.ContractAddress)
 			}
